@@ -12,7 +12,7 @@
 (*   [k |-> "const", v |-> BOOLEAN]   [k |-> "prune"]   [k |-> "quit"]     *)
 (*   [k |-> "print", delim |-> 10 | 0]   [k |-> "printf", fmt |-> chars]   *)
 (*   [k |-> "regex", ast |-> Regex tree, fold]  (syntax: cfg.syn)          *)
-(*   [k |-> "gopt", o |-> "depth"] | [k |-> "gopt", o |-> "maxdepth" |     *)
+(*   [k |-> "gopt", o |-> "depth" | "xdev"] | [k |-> "gopt", o |-> "maxdepth" |  *)
 (*    "mindepth", n]: global options - true where they stand, in force for *)
 (*    the whole run wherever they stand (the last -maxdepth/-mindepth wins)*)
 (*   [k |-> "exec", c |-> "true" | "false" | "exists"]   [k |-> "fls"]      *)
@@ -132,6 +132,7 @@ RootsSem(words, tree, cfg, roots, r, acc) ==
 Gopts(words, o) == SelectSeq(words, LAMBDA w : w.k = "gopt" /\ w.o = o)
 EffCfg(words, cfg) ==
   LET mx == Gopts(words, "maxdepth")  mn == Gopts(words, "mindepth") IN
+  (IF Gopts(words, "xdev") # <<>> THEN [xdev |-> TRUE] ELSE <<>>) @@
   [cfg EXCEPT !.depth = cfg.depth \/ Gopts(words, "depth") # <<>>,
               !.max = IF mx = <<>> THEN cfg.max ELSE mx[Len(mx)].n,
               !.min = IF mn = <<>> THEN cfg.min ELSE mn[Len(mn)].n]
